@@ -36,6 +36,8 @@ func propC04(p *Prog, r *Report) {
 	c04DeleteOrder(p, r, "C04.c")
 	c04WhoMay(p, r, "C04.d")
 	c04Recovery(p, r, "C04.e")
+	r.Rule("C04.g", "recovery first: in both constructors Load (error-gated) precedes the scheduling of the collector, and the records recovery drops are handed to the cleaner")
+	c04CtorOrder(p, r, "C04.g")
 }
 
 func c04DeleteOrder(p *Prog, r *Report, rule string) {
